@@ -11,7 +11,7 @@
    their replies, what the callback saw, the returned class res.  The only
    well-formedness hypothesis is that the coordinator never hands out the empty xid. *)
 From Coq Require Import List NArith Bool.
-From SeataV Require Import Tm.TmModel Gen.TmShape Tm.TmProofs Tm.TmGo.
+From SeataV Require Import Tm.TmModel Gen.TmShape Tm.TmProofs Tm.TmTreeProofs Tm.TmDecisionProofs Tm.TmGo.
 Import ListNotations.
 Open Scope N_scope.
 
@@ -148,3 +148,48 @@ Example C04_nonvacuous_cancelled :
   let '(_, _, res, es) := run_leaf_on 3 2 Required ONil [ROk; ROk] ROk (Some 1%nat) in
   began 1 es = true /\ res = RErrC /\ sp_replies es = [].
 Proof. vm_compute. auto. Qed.
+
+(* ================================================================ C04 lifted to PROGRAMS.
+   t is any tree of nested WithGlobalTx calls (any depth and width, shared and fresh contexts,
+   every mode and outcome), w ANY coordinator (script, default reply, cancellation point), cf any
+   retry counts.  seg x es = the commit/rollback requests naming xid x, with their replies, in the
+   order the coordinator received them.  subscopes t = every WithGlobalTx call of the program. *)
+
+(* every transaction for which the coordinator received any commit/rollback was begun by one
+   call s of the program (its begin was acknowledged, its callback saw x as Launcher), and ALL
+   requests naming x are that call's decision: commits iff its own business returned nil,
+   rollbacks otherwise -- never both, nobody else's; resent only after transport failures; at
+   most the configured number (>= 1) of times; and s returned nil exactly when its business
+   returned nil and the last reply to its commit was a well-formed response.  Joined /
+   participant scopes therefore send nothing. *)
+Theorem C04_tree_decision : forall cf t w v w' v' res es,
+  w_next w <> 0 -> run_scope go_shape cf t w v = (w', v', res, es) ->
+  forall x, seg x es <> [] -> exists s, In s (subscopes t) /\ decided cf x s es.
+Proof. exact go_c04_tree_decision. Qed.
+
+(* conversely: while the caller's context is never cancelled and the send cap is not hit, every
+   call that began a transaction does send its decision *)
+Theorem C04_tree_decision_complete : forall cf t w v w' v' res es,
+  w_next w <> 0 -> alive w -> run_scope go_shape cf t w v = (w', v', res, es) -> diverged es = false ->
+  forall id x nm, x <> 0 -> In (EEnter id x Launcher nm) es -> seg x es <> [].
+Proof. exact go_c04_tree_complete. Qed.
+
+(* every call of the program, launcher or not: nil is returned only by a call whose own business
+   returned nil (for a launcher C04_tree_decision adds: and whose commit was acknowledged) *)
+Theorem C04_tree_nil_truthful : forall cf t w v w' v' res es,
+  run_scope go_shape cf t w v = (w', v', res, es) ->
+  (res = RNilC -> match t with Scope _ _ _ _ out => out = ONil end) /\
+  forall id, In (ERet id RNilC) es -> exists m sh kids, In (Scope m id sh kids ONil) (subscopes t).
+Proof. exact go_c04_tree_nil_truthful. Qed.
+
+(* non-vacuity: a three-level program under faults -- the inner RequiresNew fails and its rollback
+   needs two sends, a Mandatory grandchild on a fresh context joins it, the outer commit is lost
+   once and then acknowledged *)
+Example C04_tree_nonvacuous :
+  let t := Scope Required 1 true [Scope RequiresNew 2 true [Scope Mandatory 3 false [] ONil] OErr] ONil in
+  let '(_, _, res, es) := run_scope go_shape {| cf_commit_retry := 2; cf_rollback_retry := 3 |} t
+                                     (init_world [ROk; ROk; RErr; ROk; RNoReply] ROk None) no_ctx in
+  seg 2 es = [EReq (QRollback 2) RErr; EReq (QRollback 2) ROk] /\
+  seg 1 es = [EReq (QCommit 1) RNoReply; EReq (QCommit 1) ROk] /\ res = RNilC /\ diverged es = false /\
+  alive (init_world [ROk; ROk; RErr; ROk; RNoReply] ROk None).
+Proof. vm_compute. auto 10. Qed.
